@@ -237,6 +237,9 @@ class Layout:
         return [("q", n, i) for n, s in self.c for i in range(s)]
 
 
+BROADCAST1 = ("x", "y", "z", "h", "s", "sdg", "t", "tdg")
+
+
 def gen_gate_stmt(rng, lay, qubits=None, vars_=(), depth=3, allow_user=True, allow_ctrl=True):
     """a random gate application on distinct indexed qubits (or formals inside a gate body); a built-in name that a
     user definition shadows is only used with the user definition's arity"""
@@ -264,7 +267,11 @@ def gen_gate_stmt_raw(rng, lay, qubits=None, vars_=(), depth=3, allow_user=True,
         return None
     k = rng.choice(choices)
     if k == "g01":
-        return ("apply", rng.choice(GATES0_1 + ["qft"]), [rng.choice(qs)], [])
+        g = rng.choice(GATES0_1 + ["qft"])
+        if qubits is None and lay.q and (g in BROADCAST1 or g == "qft") and rng.random() < 0.15:
+            # whole-register form of a one-qubit gate: the gate on each qubit of the register
+            return ("apply", g, [("r", rng.choice(lay.q)[0])], [])
+        return ("apply", g, [rng.choice(qs)], [])
     if k == "g11":
         return ("apply", rng.choice(GATES1_1), [rng.choice(qs)], [gen_expr(rng, depth, vars_)])
     if k == "u2":
@@ -295,7 +302,7 @@ def gen_gate_stmt_raw(rng, lay, qubits=None, vars_=(), depth=3, allow_user=True,
     return ("apply", "x", [rng.choice(qs)], [])
 
 
-def gen_program(rng, nstmts=12, max_q=5, measure_p=0.0, if_p=0.0, reset_p=0.0, gate_defs=2, depth=3):
+def gen_program(rng, nstmts=12, max_q=5, measure_p=0.0, if_p=0.0, reset_p=0.0, gate_defs=2, depth=3, late_p=0.06):
     """a well-formed program over the supported subset"""
     lay = Layout()
     nodes = []
@@ -332,6 +339,23 @@ def gen_program(rng, nstmts=12, max_q=5, measure_p=0.0, if_p=0.0, reset_p=0.0, g
         nodes.append(("gate", gnames[gi], regs, params, body))
         lay.gates.append((gnames[gi], nr, npar))
     for _ in range(nstmts):
+        if rng.random() < late_p:
+            # a declaration in the middle of the program (registers / gates declared by a later chunk)
+            usedq = [n for n, _ in lay.q]; usedc = [n for n, _ in lay.c]
+            freeq = [n for n in names if n not in usedq]; freec = [n for n in cnames if n not in usedc]
+            kind = rng.choice(["qreg", "creg", "creg", "gate"])
+            if kind == "qreg" and budget > 0 and freeq:
+                s_ = rng.randint(1, min(2, budget)); budget -= s_
+                nodes.append(("qreg", freeq[0], s_)); lay.q.append((freeq[0], s_))
+            elif kind == "creg" and freec and lay.nc() <= 6:
+                s_ = rng.randint(1, 3)
+                nodes.append(("creg", freec[0], s_)); lay.c.append((freec[0], s_))
+            elif kind == "gate":
+                free = [g for g in gnames if g not in [x[0] for x in lay.gates]]
+                if free:
+                    nodes.append(("gate", free[0], ["a"], [], [("apply", "h", [("r", "a")], [])]))
+                    lay.gates.append((free[0], 1, 0))
+            continue
         r = rng.random()
         if r < measure_p and lay.nc():
             if rng.random() < 0.5:
